@@ -115,13 +115,35 @@ def run(ctx):
         res.make_partial(ranges)
         return res
 
+    class FileWrapper:
+        """what a server installs as wsgi.file_wrapper"""
+        def __init__(self, filelike, blksize=8192):
+            self.filelike, self.blksize = filelike, blksize
+
+        def __iter__(self):
+            return iter(lambda: self.filelike.read(self.blksize), b"")
+
+        def close(self):
+            if hasattr(self.filelike, "close"):
+                self.filelike.close()
+
     def one(kind, data, ranges, extra=None, hdr=None):
         cur["k"] = (kind, data, ranges, extra)
         if kind in ("realfile", "path"):
             cur["path"] = os.path.join(tmpdir, "f%d.bin" % len(data))
             with open(cur["path"], "wb") as fil:
                 fil.write(data)
-        ans = call(app, environ(path="/r", headers=hdr))
+        env_extra = {}
+        if kind in ("bytesio", "realfile", "path"):
+            # server variants: plain, with a file wrapper, uWSGI (which
+            # must not use the wrapper for partial answers)
+            variant = rng.choice(["plain", "wrapper", "wrapper", "uwsgi"])
+            ctx.count("server=" + variant)
+            if variant != "plain":
+                env_extra["wsgi.file_wrapper"] = FileWrapper
+            if variant == "uwsgi":
+                env_extra["uwsgi.version"] = b"2.0"
+        ans = call(app, environ(path="/r", headers=hdr, extra=env_extra))
         if ans.raised or ans.iter_raised or len(ans.calls) != 1:
             ctx.violation("emission-failed", {
                 "kind": kind, "L": len(data), "ranges": ranges,
